@@ -10,7 +10,7 @@ PID = 'C07'
 THEOREMS = ['PyDBML.C07.accepts_only_whole_input', 'PyDBML.C07.stringEnd_ok', 'PyDBML.C07.advance_suffix', 'PyDBML.C07.skipWs_suffix']
 MODULES = ['PyDBMLProofs.Props.C07']
 
-FAULTS = ['col_no_type', 'unknown_setting', 'unknown_index_type', 'bad_operator', 'bad_action', 'bad_colour']
+FAULTS = ['col_no_type', 'unknown_setting', 'unknown_index_type', 'bad_operator', 'bad_action', 'bad_colour', 'prop_when_off']
 BRACKETS = ['{', '}', '[', ']', '(', ')']
 GARBAGE = ['x', '}', ']', ')', '{', 'Table', 'Table t', 'ref', ':', ',', "'unterminated", '"', '`', '#fff', '1', '.', '-', '>',
            'note:', '[pk]', 'indexes', 'as', '*/', '\\', '\x0c', ' x', 'é', '\x00']
